@@ -414,7 +414,8 @@ sexp sexp_integer_length (sexp ctx, sexp self, sexp_sint_t n, sexp x) {
 sexp sexp_bit_set_p (sexp ctx, sexp self, sexp_sint_t n, sexp i, sexp x) {
   sexp_sint_t pos;
 #if SEXP_USE_BIGNUMS
-  sexp_sint_t rem;
+  sexp_sint_t rem, rem2;
+  sexp_uint_t word;
 #endif
   if (! sexp_fixnump(i))
     return sexp_type_exception(ctx, self, SEXP_FIXNUM, i);
@@ -429,6 +430,14 @@ sexp sexp_bit_set_p (sexp ctx, sexp self, sexp_sint_t n, sexp i, sexp x) {
   } else if (sexp_bignump(x)) {
     pos /= (sizeof(sexp_uint_t)*CHAR_BIT);
     rem = (sexp_unbox_fixnum(i) - pos*sizeof(sexp_uint_t)*CHAR_BIT);
+    if (sexp_bignum_sign(x) < 0 && pos < (sexp_sint_t)sexp_bignum_length(x)) {
+      /* the complemented bit of -x-1: borrow when all lower words are zero */
+      word = sexp_bignum_data(x)[pos];
+      for (rem2=0; rem2<pos && !sexp_bignum_data(x)[rem2]; rem2++)
+        ;
+      if (rem2 == pos) word--;
+      return sexp_make_boolean(!(word & ((sexp_uint_t)1<<rem)));
+    }
     return sexp_make_boolean((pos < (sexp_sint_t)sexp_bignum_length(x))
                              ? (sexp_bignum_data(x)[pos] & ((sexp_uint_t)1<<rem))
                              : sexp_bignum_sign(x) < 0);
